@@ -24,6 +24,7 @@ import (
 	"crypto/sha1"
 	"encoding/hex"
 	"encoding/json"
+	"encoding/xml"
 	"fmt"
 	"math/rand"
 	"net/url"
@@ -87,6 +88,8 @@ func runC20Child(c *Ctx) {
 		res = stressServer(c.Seed, dur, os.Getenv("C20_NOBCRYPT") == "1")
 	case "lin":
 		res = linHistories(c.Seed, dur)
+	case "first":
+		res = firstRequests(c.Seed, dur)
 	default:
 		fmt.Fprintln(os.Stderr, "C20child: unknown mode")
 		os.Exit(2)
@@ -345,6 +348,114 @@ func stressServer(seed int64, dur time.Duration, nobcrypt bool) stressResult {
 			}
 			sort.Strings(res.Stuck)
 			return res // the wedged goroutines are abandoned
+		}
+	}
+	return res
+}
+
+// ---- first requests on a fresh server ----
+// Lazily initialised shared state only races on first use: every round builds a
+// NEW server (over a store filled directly, or over a zero-value store) and fires
+// the first requests concurrently, released together by a spin barrier:
+//
+//	all     one goroutine per handler (every handler's first request at once)
+//	subset  2..8 goroutines with random handlers
+//	same    2..8 goroutines all issuing the same request (e.g. the login form)
+func freshEnv(empty bool) *stressEnv {
+	st := &samlidp.MemoryStore{}
+	now := time.Now()
+	if !empty {
+		_ = st.Put("/users/alice", samlidp.User{Name: "alice", Email: "alice@example.com", Groups: []string{"g"}})
+		_ = st.Put("/sessions/sess1", &saml.Session{ID: "sess1", CreateTime: now, ExpireTime: now.Add(time.Hour), Index: "i1",
+			NameID: "alice@example.com", UserName: "alice", UserEmail: "alice@example.com", Groups: []string{"g"}})
+		var md saml.EntityDescriptor
+		if err := xml.Unmarshal([]byte(spMetadataXML(entityOf(1), []string{acsOf(1)})), &md); err != nil {
+			fmt.Fprintln(os.Stderr, "C20child: metadata:", err)
+			os.Exit(2)
+		}
+		_ = st.Put("/services/sp1", &samlidp.Service{Name: "sp1", Metadata: md})
+		_ = st.Put("/shortcuts/sc", &samlidp.Shortcut{Name: "sc", ServiceProviderID: entityOf(1)})
+	}
+	srv, err := newServer(st)
+	if err != nil {
+		fmt.Fprintln(os.Stderr, "C20child: New:", err)
+		os.Exit(2)
+	}
+	return &stressEnv{srv: srv, store: st, now: now, nobcrypt: true, cookie: "sess1"}
+}
+
+func firstRequests(seed int64, dur time.Duration) stressResult {
+	res := stressResult{Ops: map[string]int{}, Workers: map[string]int{}}
+	ops := stressOps()
+	r := rand.New(rand.NewSource(seed ^ 0xf1257))
+	deadline := time.Now().Add(dur)
+	for round := 0; time.Now().Before(deadline); round++ {
+		e := freshEnv(round%4 == 3)
+		var plan []stressOp
+		kind := ""
+		switch round % 3 {
+		case 0:
+			kind, plan = "all", append(plan, ops...)
+		case 1:
+			kind = "subset"
+			for i, n := 0, 2+r.Intn(7); i < n; i++ {
+				plan = append(plan, ops[r.Intn(len(ops))])
+			}
+		default:
+			kind = "same"
+			o := ops[r.Intn(len(ops))]
+			for i, n := 0, 2+r.Intn(7); i < n; i++ {
+				plan = append(plan, o)
+			}
+		}
+		res.Workers[kind]++
+		res.Rounds++
+		nw := len(plan)
+		var ready int32
+		var progress int64
+		current := make([]atomic.Value, nw)
+		panics := make([]string, nw)
+		var wg sync.WaitGroup
+		for w := 0; w < nw; w++ {
+			wg.Add(1)
+			go func(w int) {
+				defer wg.Done()
+				rr := rand.New(rand.NewSource(seed*7919 + int64(round)*131 + int64(w)))
+				atomic.AddInt32(&ready, 1)
+				for spin := 0; atomic.LoadInt32(&ready) < int32(nw); spin++ {
+					if spin > 20000 {
+						runtime.Gosched()
+					}
+				}
+				current[w].Store(plan[w].name)
+				if _, p := plan[w].run(e, rr); p != nil {
+					panics[w] = fmt.Sprintf("%s: panic: %v", plan[w].name, p)
+				}
+				current[w].Store("")
+				atomic.AddInt64(&progress, 1)
+			}(w)
+		}
+		done := make(chan struct{})
+		go func() { wg.Wait(); close(done) }()
+		select {
+		case <-done:
+		case <-time.After(watchdog):
+			res.Deadlock = true
+			res.Dump = stuckDump()
+			for w := 0; w < nw; w++ {
+				if s, _ := current[w].Load().(string); s != "" {
+					res.Stuck = append(res.Stuck, s)
+				}
+			}
+			sort.Strings(res.Stuck)
+			return res
+		}
+		for w := 0; w < nw; w++ {
+			res.Ops[plan[w].name]++
+			res.Total++
+			if panics[w] != "" && len(res.Panics) < 5 {
+				res.Panics = append(res.Panics, panics[w])
+			}
 		}
 	}
 	return res
@@ -642,9 +753,9 @@ func runC20(c *Ctx) {
 	if _, err := os.Stat(raceBin); err != nil {
 		raceBin = ""
 	}
-	dStress, dLin, dRaceStress, dRaceLin := 8*time.Second, 4*time.Second, 6*time.Second, 4*time.Second
+	dStress, dLin, dRaceStress, dRaceLin, dFirst := 8*time.Second, 4*time.Second, 6*time.Second, 4*time.Second, 5*time.Second
 	if c.Thorough() {
-		dStress, dLin, dRaceStress, dRaceLin = 45*time.Second, 20*time.Second, 30*time.Second, 15*time.Second
+		dStress, dLin, dRaceStress, dRaceLin, dFirst = 45*time.Second, 20*time.Second, 30*time.Second, 15*time.Second, 25*time.Second
 	}
 	type job struct {
 		name, bin, mode string
@@ -655,11 +766,13 @@ func runC20(c *Ctx) {
 	jobs := []*job{
 		{name: "stress", bin: exe, mode: "stress", dur: dStress},
 		{name: "store_histories", bin: exe, mode: "lin", dur: dLin},
+		{name: "first_requests", bin: exe, mode: "first", dur: dFirst},
 	}
 	if raceBin != "" {
 		jobs = append(jobs,
 			&job{name: "race_stress", bin: raceBin, mode: "stress", dur: dRaceStress, env: []string{"C20_NOBCRYPT=1", "GORACE=halt_on_error=0 exitcode=0"}},
-			&job{name: "race_store_histories", bin: raceBin, mode: "lin", dur: dRaceLin, env: []string{"GORACE=halt_on_error=0 exitcode=0"}})
+			&job{name: "race_store_histories", bin: raceBin, mode: "lin", dur: dRaceLin, env: []string{"GORACE=halt_on_error=0 exitcode=0"}},
+			&job{name: "race_first_requests", bin: raceBin, mode: "first", dur: dFirst, env: []string{"GORACE=halt_on_error=0 exitcode=0"}})
 		c.Count("race_detector/available")
 	} else {
 		c.Count("race_detector/unavailable")
@@ -710,7 +823,7 @@ func runC20(c *Ctx) {
 		}
 		add(j.name+"/completes", true, in, map[string]any{"requests": o.res.Total, "histories": o.res.Histories})
 		switch j.mode {
-		case "stress":
+		case "stress", "first":
 			add(j.name+"/no_deadlock", !o.res.Deadlock, in, map[string]any{"deadlock": o.res.Deadlock,
 				"watchdog": watchdog.String(), "requests_in_flight": o.res.Stuck, "goroutines": o.res.Dump, "requests_completed": o.res.Total})
 			add(j.name+"/no_panic", len(o.res.Panics) == 0, in, map[string]any{"panics": o.res.Panics})
